@@ -1,0 +1,25 @@
+//go:build verif && !windows
+
+package daemon
+
+import (
+	"os"
+	"time"
+)
+
+// verifPause delays the launcher at the named point for the duration given in
+// VERIF_PAUSE_<point> (dots replaced by underscores, upper case), e.g. VERIF_PAUSE_LAUNCH_AFTERSTART=300ms.
+// Only compiled with the build tag `verif`; used to choose the schedule in which Done() precedes the launcher's wait.
+func verifPause(point string) {
+	key := []byte("VERIF_PAUSE_" + point)
+	for i, c := range key {
+		if c == '.' {
+			key[i] = '_'
+		} else if 'a' <= c && c <= 'z' {
+			key[i] = c - 'a' + 'A'
+		}
+	}
+	if d, err := time.ParseDuration(os.Getenv(string(key))); err == nil && d > 0 {
+		time.Sleep(d)
+	}
+}
